@@ -5,5 +5,6 @@ CONSTANT FailKinds = {"none", "call", "load"}
 CONSTANT ForceMulti = {TRUE}
 CONSTANT SepExit = TRUE
 CONSTANT Mutant = "earlykill"
-CONSTANT KeepHist = FALSE
+CONSTANT KeepHist = "none"
 INVARIANT KillLast
+VIEW view
